@@ -245,6 +245,8 @@ package ssh
 //@ props C35
 //@ requires len(packet) > 0 && ch.mux != nil && ch.remoteWin.Cond != nil
 //@ modifies heap
+//@ modifies ghost(&ch.remoteWin, granted)
+//@ modifies ghost(ch.remoteWin.Cond, wakeall)
 // open confirmation: the advertised initial window, or nothing if the window refuses it (add's result is not looked at there)
 //@ ensures implies(result == nil && old(packet[0]) == 91, ghost(&ch.remoteWin, granted) == old(ghost(&ch.remoteWin, granted)) + old(be32(packet[9:13])) || ghost(&ch.remoteWin, granted) == old(ghost(&ch.remoteWin, granted)))
 // window adjustment: exactly the additional bytes (a refused adjustment is an error)
@@ -311,6 +313,8 @@ package ssh
 //@ requires s.cipher != nil
 //@ requires ref(s.packetData) != ref(s.macResult) || cap(s.packetData) == 0
 //@ modifies heap
+//@ modifies ghost(s.mac, hlen)
+//@ modifies ghost(s.mac, hbuf)
 //@ ensures implies(result1 == nil, 1 <= len(result0) && len(result0) <= 262143)
 //@ ensures implies(result1 != nil, result0 == nil)
 //@ check_at "s.macResult = s.mac.Sum(s.macResult[:0])" ghost(s.mac, hlen) == 4 + 4 + length
@@ -347,6 +351,8 @@ package ssh
 //@ requires cap(c.packetData) >= 16 && c.macSize <= 1024
 //@ requires ref(c.packetData) != ref(c.macResult)
 //@ modifies heap
+//@ modifies ghost(c.mac, hlen)
+//@ modifies ghost(c.mac, hbuf)
 //@ ensures implies(result1 == nil, 1 <= len(result0) && len(result0) <= 262139)
 //@ ensures implies(result1 != nil, result0 == nil)
 //@ check_at "c.macResult = c.mac.Sum(c.macResult[:0])" ghost(c.mac, hlen) == 4 + 4 + length
@@ -386,6 +392,8 @@ package ssh
 //@ requires c.aead != nil && spec.aeadoh(c.aead) == 16 && len(c.iv) == 12 && w != nil && rand != nil
 //@ requires len(packet) <= 262144
 //@ modifies heap
+//@ modifies ghost(w, hlen)
+//@ modifies ghost(w, hbuf)
 //@ let L = 1 + len(packet) + pad16(1 + len(packet))
 //@ ensures implies(result == nil, ghost(w, hlen) == old(ghost(w, hlen)) + 4 + L + 16)
 //@ ensures L % 16 == 0
@@ -402,6 +410,10 @@ package ssh
 //@ requires s.cipher != nil && w != nil && rand != nil && (s.mac == nil || s.mac != w)
 //@ requires ref(s.macResult) != ref(packet) || len(packet) == 0
 //@ modifies heap
+//@ modifies ghost(w, hlen)
+//@ modifies ghost(w, hbuf)
+//@ modifies ghost(s.mac, hlen)
+//@ modifies ghost(s.mac, hbuf)
 //@ let P = pad16(5 + len(packet) - aad(s))
 //@ ensures implies(len(packet) > 262144, result != nil)
 //@ ensures implies(result == nil, ghost(w, hlen) == old(ghost(w, hlen)) + 5 + len(packet) + P + ite(s.mac != nil, spec.hsize(s.mac), 0))
@@ -419,6 +431,8 @@ package ssh
 //@ props C25
 //@ requires w != nil && rand != nil && ref(c.buf) >= 0 && len(payload) <= 262144
 //@ modifies heap
+//@ modifies ghost(w, hlen)
+//@ modifies ghost(w, hbuf)
 //@ let P = pad8(1 + len(payload))
 //@ ensures implies(result == nil, ghost(w, hlen) == old(ghost(w, hlen)) + 4 + 1 + len(payload) + P + 16)
 //@ ensures 4 <= P && P <= 11 && (1 + len(payload) + P) % 8 == 0
@@ -431,6 +445,10 @@ package ssh
 //@ requires c.encrypter != nil && (spec.bsize(c.encrypter) == 8 || spec.bsize(c.encrypter) == 16) && w != nil && rand != nil && (c.mac == nil || c.mac != w)
 //@ requires len(packet) <= 262144 && c.macSize <= 1024 && implies(c.mac != nil, c.macSize == spec.hsize(c.mac)) && implies(c.mac == nil, c.macSize == 0)
 //@ modifies heap
+//@ modifies ghost(w, hlen)
+//@ modifies ghost(w, hbuf)
+//@ modifies ghost(c.mac, hlen)
+//@ modifies ghost(c.mac, hbuf)
 //@ ensures implies(result == nil, (ghost(w, hlen) - old(ghost(w, hlen)) - c.macSize) % max(8, spec.bsize(c.encrypter)) == 0 && ghost(w, hlen) - old(ghost(w, hlen)) - c.macSize >= 16)
 //@ check_at "bufferSize := encLength + c.macSize" paddingLength >= 4 && paddingLength <= 255 && encLength == 5 + len(packet) + paddingLength && encLength % effectiveBlockSize == 0 && encLength >= 16
 //@ check_at "c.packetData = c.mac.Sum(c.packetData)" ghost(c.mac, hlen) == 4 + encLength
